@@ -156,7 +156,7 @@ func Specials() []string {
 		"ARRAY(1)", "Array(1, 2,)", "[1, 2]", "LIST($a) = $b", "ISSET($a)", "EMPTY($a)", "EXIT", "DIE(1)", "NEW Foo", "CLONE $a", "PRINT $a", "$a INSTANCEOF B", "$a AND $b", "$a XOR $b", "$a OR $b",
 		"function() { yield\nfrom $a; }", "function() { yield FROM $a; }", "function() { YIELD 1; }",
 		"$a->b", "$a-> b", "$a ->b", "$a->class", "$a->  list", "$a::class", "$a::CLASS", "A::class", "$a->b()->c",
-		"$$a", "${'a'}", "$$$a", "$a{0}", "1 . 5", "1and 2", "1.and 2", "$a=1or$b", "0x1for", "1 .5", "$a.=.5", "$a<=>-1", "$a- -$b", "$a+ +$b", "$a?->b", "1?:2", "$a?1:2", "$a ?? $b", "$a <=> $b", "$a ??= $b", "fn($x) => $x", "fn&($x) => $x", "static fn() => 1", "static function() {}",
+		"$$a", "${'a'}", "$$$a", "$a{0}", "1 . 5", "1and 2", "1.and 2", "$a=1or$b", "0x1for", "1 .5", "$a.=.5", "$a<=>-1", "$a- -$b", "$a+ +$b", "$a---$b", "$a+++$b", "$i+++-$j", "A::$n---1", "$a--- -$b", "$a-- - --$b", "$a.-.5", "$a&&&$b", "$a<<<=$b", "$a?:-1", "1-.-1", "$a?->b", "1?:2", "$a?1:2", "$a ?? $b", "$a <=> $b", "$a ??= $b", "fn($x) => $x", "fn&($x) => $x", "static fn() => 1", "static function() {}",
 	}
 	for _, lf := range lits {
 		variants := []string{lf}
